@@ -63,7 +63,7 @@ func VerifC18_GetConcurrency() {
 		w.WriteHeader(200)
 	})
 	h := api.limitHandler(inner)
-	n := 2 + vfChoice("requests", 2+vfTier())
+	n := 2 + vfChoice("requests", 2)
 	ws := make([]*hRW18, n)
 	isGet := make([]bool, n)
 	done := make(chan struct{}, n)
